@@ -37,9 +37,25 @@ FIXED = [
  (["C01"], "6474dd7", "D44", "ShapelyPolygon.sample_random_uniform returned its points triangle by triangle; with several parameter rows the row-wise rejection loop of cut/intersection never terminated; found by the C01 monitor (progress budget)"),
  (["C10"], "bc5e98c", "D45", "ShapelyBoundary density sampling computed the number of points from the polygon's area instead of the boundary length; found by the C10 monitor"),
  (["C10"], "128d3dc", "D46", "ShapelyPolygon.sample_grid(d=...) returned more than ceil(d*area) points; found by the C10 monitor"),
+ (["C16"], "7f0510f", "D48", "DeepONetDataset_Unique with a batch size larger than the data and not a multiple of it presented only the first (batch size mod size) functions/locations; found by the C16 monitor"),
 ]
 
 OPEN = [
+ {"id": "KF-C16-D34-deeponet-diagonal-gcd", "property": "C16", "status": "open", "design_item": "D34",
+  "match": {"kind": "pairs_never_presented", "dataset": "DeepONetDataset", "gcd_gt_1": True, "matches_diagonal_model": True},
+  "what": "DeepONetDataset (shared trunk) walks the diagonal of (branch batch, trunk batch): when gcd(number of branch batches, number of trunk batches) > 1 one pass presents only lcm of the Lb*Lt batch combinations, so some function-location pairs are never presented",
+  "witness": "2 functions x 2 locations, branch batch size 1, trunk batch size 1: one pass yields (f0,l0), (f1,l1); pairs (f0,l1), (f1,l0) never appear",
+  "why_not_fixed": "presenting every combination changes the length and the iteration order of the data set (epoch length Lb*Lt instead of lcm) - a design change, not a small local repair"},
+ {"id": "KF-C17-user-volume-not-carried", "property": "C17", "status": "open", "design_item": "D36",
+  "match": {"kind": "user_volume_lost"},
+  "what": "a volume set with set_volume() is not carried through partial evaluation: D.set_volume(7.25); D(t=...).volume() returns the computed volume of the evaluated shape (every __call__ builds a new domain without the user volume)",
+  "witness": "Parallelogram depending on t: set_volume(7.25) then D(t=row0).volume() = 2.4498 (C17 seed 0)",
+  "why_not_fixed": "needs a change in the __call__ of every domain class (12 sites), not a small local repair"},
+ {"id": "KF-C17-dependent-product-volume-layout", "property": "C17", "status": "open", "design_item": "D47",
+  "match": {"kind": "exception", "root": "product", "target": "boundary", "site": "_sample_random_with_n", "exc": "RuntimeError"},
+  "what": "ProductDomain.volume(params) of a product whose first factor depends on the second AND on a free external variable returns the layout (1, k) instead of (k, 1); sampling on the boundary of such a product (a union of products) with parameter rows then broadcasts to a matrix in UnionDomain._sample_random_with_n and raises RuntimeError",
+  "witness": "(Circle(x; radius/center depend on s and u) * Interval(s; bounds depend on t))(t=...).boundary.sample_random_uniform(n=15, params=3 rows of u) -> 'size of tensor a (45) must match the size of tensor b (3)' (C17 seed 0)",
+  "why_not_fixed": "the repository's own test test_product_volume_domain_a_is_dependent_on_variables asserts the (1, k) layout, so the layout cannot be corrected without editing the test suite"},
  {"id": "KF-C18-dependent-product-box", "property": "C18", "status": "open", "design_item": "D24b",
   "match": {"kind": ["point_outside_box", "normalized_outside_unit_box"], "dep_product": True},
   "what": "bounding_box of a ProductDomain whose first factor depends on the second is estimated from 10 random samples of the second factor (the library warns that it is an approximation): domain points lie up to a few percent of the size outside the box, a NormalizationLayer built from it maps them outside [-1,1]^d",
@@ -47,12 +63,15 @@ OPEN = [
   "why_not_fixed": "an exact box needs the extreme values of the first factor's box over the whole second factor; no small local repair (set_bounding_box exists for exactly this purpose)"},
 ]
 
+DROP = {"KF-C16-unique-oversized-batch"}
+
 def main():
     path = os.path.join(ROOT, "KNOWN_FINDINGS.json")
     extra_open = []
     if os.path.exists(path):
         old = json.load(open(path))
-        extra_open = [f for f in old.get("findings", []) if f.get("status") == "open" and f.get("id") not in {o["id"] for o in OPEN}]
+        extra_open = [f for f in old.get("findings", []) if f.get("status") == "open" and f.get("id") not in {o["id"] for o in OPEN}
+                      and f.get("id") not in DROP]
     out = []
     for props, commit, item, what in FIXED:
         for p in props[:1]:
